@@ -11,7 +11,7 @@ RULE = ("centre sets: uniform random, jittered lattice, exactly square, exactly 
         "infinite, coordinates scaled / offset. decisive = rounded corners of every kept region pairwise distinct and no "
         "region diameter within 1e-9 of the cut-off. distinct = (kind, centres, cells kept, helper ring, cut-off class); "
         "non-trivial = at least one cell")
-MIN_DECISIVE = {"quick": 60, "thorough": 800}
+MIN_DECISIVE = {"quick": 50, "thorough": 600}
 REQUIRED_COUNTERS = ["post:create_lattice", "cells:compared", "interning:checked"]
 REQUIRED_HIST = {"any": ["kind:square", "kind:hex", "kind:random", "kind:jitter"]}
 TECHNIQUE = "runtime contract on tessellation.create_lattice against an independent reading of scipy.spatial.Voronoi"
